@@ -430,6 +430,26 @@ func c09Equal(r *core.Run, eq *core.FuncInfo) {
 		}
 		seen[f] = true
 		r.Fn(f)
+		// a helper comparing two floating-point numbers must be exact equality: the normaliser turns every numeric
+		// kind (BIGINT counters, epoch milliseconds, amounts) into float64, a tolerance makes a small change of a
+		// large integer "no change" and the undo of that column is skipped
+		if sig := f.Obj.Type().(*types.Signature); sig.Params().Len() == 2 && sig.Params().At(0).Type().String() == "float64" && sig.Params().At(1).Type().String() == "float64" {
+			exact := false
+			if len(f.Decl.Body.List) == 1 {
+				if rs, ok := f.Decl.Body.List[0].(*ast.ReturnStmt); ok && len(rs.Results) == 1 {
+					if be, ok := ast.Unparen(rs.Results[0]).(*ast.BinaryExpr); ok && be.Op == token.EQL {
+						ps := paramObjs(f)
+						if len(ps) == 2 && (isObj(f.Pkg.TypesInfo, be.X, ps[0]) && isObj(f.Pkg.TypesInfo, be.Y, ps[1]) || isObj(f.Pkg.TypesInfo, be.X, ps[1]) && isObj(f.Pkg.TypesInfo, be.Y, ps[0])) {
+							exact = true
+						}
+					}
+				}
+			}
+			r.Sites++
+			r.Check(exact, "C09.equal", core.ShortKey(f.Obj)+" compares numbers exactly", w.Pos(f.Decl.Pos()), "a == b", "two column values normalised to float64 are compared by "+f.Obj.Name()+", which is not plain equality (a tolerance, a rounding): every integer column goes through the same normalisation, so a small change of a large BIGINT compares equal — 'before image == after image, nothing to undo', and a foreign write within the tolerance is overwritten")
+			leaves = append(leaves, f)
+			return
+		}
 		sp := &flow.Spec{W: w, Depth: 0, Split: []flow.Tag{"false:eq"}, Classify: func(pkg *packages.Package, call *ast.CallExpr, callee *types.Func) []flow.Tag {
 			if callee != nil && w.Info(callee) != nil && boolFirst(callee) && strings.Contains(callee.Pkg().Path(), "/pkg/datasource/sql") && len(call.Args) >= 2 {
 				return []flow.Tag{"eq"}
